@@ -172,6 +172,15 @@ def main():
                         be = num / den
                         S["max_lu_backward_error"] = max(S["max_lu_backward_error"], float(be))
                         S["lu_certificates"] += 1
+                        # C04.1: a variable no constraint mentions (structurally empty column) gets a
+                        # step component that is exactly zero (GN.untouched_var_step_zero over the reals)
+                        used = {c_ for _, c_, _ in ji}
+                        for col in range(n):
+                            if col not in used:
+                                S["zero_column_steps_checked"] = S.get("zero_column_steps_checked", 0) + 1
+                                if dvec[col] != 0.0:
+                                    bad(idx, f"step component of unmentioned variable {col} is {dvec[col]!r}, not 0, at {key}"); ok = False
+                        if not ok: break
                         if be > 1e-9:
                             bad(idx, f"LU certificate fails at {key}: backward error {be:.3e}"); ok = False; break
             # SVD certificates (against the Jacobian of the last iteration of that call)
@@ -195,6 +204,11 @@ def main():
                         e2 = max(e2, abs(np.linalg.norm(J @ V[:, kk]) - sigma[kk]) / smax)
                     for kk in range(len(sigma), V.shape[1]):
                         e2 = max(e2, np.linalg.norm(J @ V[:, kk]) / smax)
+                    # the contract the Lean theorems use (GN.SvdSpec): VᵀJᵀJV = diag(σ², 0…)
+                    sp = np.zeros(V.shape[1]); sp[:len(sigma)] = sigma ** 2
+                    e3 = np.abs(V.T @ (J.T @ J) @ V - np.diag(sp)).max() / (smax * smax) if V.size else 0.0
+                    S["max_svd_diag_error"] = max(S.get("max_svd_diag_error", 0.0), float(e3))
+                    e2 = max(e2, e3)
                     mono = all(sigma[i] >= sigma[i + 1] - 1e-12 * smax for i in range(len(sigma) - 1)) and all(s >= 0 for s in sigma)
                     S["svd_certificates"] += 1
                     if e1 > 1e-9 or e2 > 1e-9 or not mono:
